@@ -124,12 +124,16 @@ StormCase == [storm |-> TRUE, requests |-> 4000]
    gets the whole body from a new fetch *)
 CutCase == [cut |-> TRUE]
 
+(* and one over a real listening socket: a client that asks for 12 MB (compressed per request, not cacheable) and does not read
+   for a while; another client is served meanwhile; each of the two receives the bytes the upstream produced for it *)
+SlowCase == [slow |-> TRUE]
+
 VARIABLE l
 
 EmitInit ==
   /\ l = 0
   /\ LET Q == SetToSeq({c \in Cells \cup QCells : Relevant(c)})
-     IN ndJsonSerialize(IOEnv.OUT, [i \in 1..Len(Q) |-> Q[i] @@ [expected |-> SetToSeq(Expected(Q[i]))]] \o <<StormCase, CutCase>>)
+     IN ndJsonSerialize(IOEnv.OUT, [i \in 1..Len(Q) |-> Q[i] @@ [expected |-> SetToSeq(Expected(Q[i]))]] \o <<StormCase, CutCase, SlowCase>>)
 EmitNext == FALSE /\ l' = l
 
 Obs == ndJsonDeserialize(IOEnv.OBS)
@@ -173,6 +177,7 @@ OkC13(o) ==
   /\ ("gzBest" \in DOMAIN o) => o.gzBest
 
 Ok(o) == IF "storm" \in DOMAIN o.case THEN (o.asked > 0 /\ o.compressed = 0)
+         ELSE IF "slow" \in DOMAIN o.case THEN (o.firstOk /\ o.secondOk)
          ELSE IF "cut" \in DOMAIN o.case THEN /\ (o.firstComplete => o.firstFull)
                                                /\ o.secondLabel # "hit" /\ o.secondStatus = 200 /\ o.secondFull
          ELSE IF IOEnv.PROP = "C13" THEN OkC13(o) ELSE OkC05(o)
